@@ -52,6 +52,45 @@ pub enum Case {
 
 type R126<C> = sx126x::Sx126x<crate::phy::MockSpi, crate::phy::MockIv, C>;
 
+/// Boards that supply their own PA characterisation through `Sx126xVariant::pa_table`: the rows of the datasheet
+/// table up to +20 / +17 dBm on the high-power PA (as ST's SUBGRF_SetTxParams configures such boards) and up to
+/// +14 dBm on the low-power PA. The top row is the board's ceiling.
+static BOARD_HP20_TABLE: sx126x::PaTable = sx126x::PaTable {
+    min_dbm: -9,
+    entries: &[
+        sx126x::PaTableEntry { max_dbm: 14, pa_duty_cycle: 0x02, hp_max: 0x02, tx_params_at_max: 22 },
+        sx126x::PaTableEntry { max_dbm: 17, pa_duty_cycle: 0x02, hp_max: 0x03, tx_params_at_max: 22 },
+        sx126x::PaTableEntry { max_dbm: 20, pa_duty_cycle: 0x03, hp_max: 0x05, tx_params_at_max: 22 },
+    ],
+};
+static BOARD_HP17_TABLE: sx126x::PaTable = sx126x::PaTable {
+    min_dbm: -9,
+    entries: &[
+        sx126x::PaTableEntry { max_dbm: 14, pa_duty_cycle: 0x02, hp_max: 0x02, tx_params_at_max: 22 },
+        sx126x::PaTableEntry { max_dbm: 17, pa_duty_cycle: 0x02, hp_max: 0x03, tx_params_at_max: 22 },
+    ],
+};
+static BOARD_LP14_TABLE: sx126x::PaTable = sx126x::PaTable {
+    min_dbm: -17,
+    entries: &[
+        sx126x::PaTableEntry { max_dbm: 10, pa_duty_cycle: 0x01, hp_max: 0x00, tx_params_at_max: 13 },
+        sx126x::PaTableEntry { max_dbm: 14, pa_duty_cycle: 0x04, hp_max: 0x00, tx_params_at_max: 14 },
+    ],
+};
+pub struct BoardVariant(pub u8);
+impl sx126x::Sx126xVariant for BoardVariant {
+    fn get_device_sel(&self) -> sx126x::DeviceSel {
+        if self.0 == 14 { sx126x::DeviceSel::LowPowerPA } else { sx126x::DeviceSel::HighPowerPA }
+    }
+    fn pa_table(&self) -> &'static sx126x::PaTable {
+        match self.0 {
+            20 => &BOARD_HP20_TABLE,
+            17 => &BOARD_HP17_TABLE,
+            _ => &BOARD_LP14_TABLE,
+        }
+    }
+}
+
 fn mk126<C: sx126x::Sx126xVariant>(env: &Env, chip: C) -> R126<C> {
     sx126x::Sx126x::new(env.spi(), env.iv(), sx126x::Config { chip, tcxo_ctrl: None, use_dcdc: false, rx_boost: false })
 }
@@ -81,6 +120,18 @@ macro_rules! with_chip {
                 let mut $r = mk126($env, sx126x::Stm32wl { use_high_power_pa: true });
                 $body
             }
+            "board-hp20" => {
+                let mut $r = mk126($env, BoardVariant(20));
+                $body
+            }
+            "board-hp17" => {
+                let mut $r = mk126($env, BoardVariant(17));
+                $body
+            }
+            "board-lp14" => {
+                let mut $r = mk126($env, BoardVariant(14));
+                $body
+            }
             "sx1276-rfo" => {
                 let mut $r = mk127!($env, sx127x::Sx1276, false);
                 $body
@@ -102,7 +153,7 @@ macro_rules! with_chip {
 }
 
 fn is126(chip: &str) -> bool {
-    chip.starts_with("sx126") || chip.starts_with("stm32")
+    chip.starts_with("sx126") || chip.starts_with("stm32") || chip.starts_with("board-")
 }
 
 fn reg_write(log: &[Txn], addr: u8) -> Option<u8> {
@@ -200,7 +251,7 @@ pub fn eval_power_via(chip: &str, request: i32, hz: u32, via: u8, env: &Env) -> 
         Ok(Some(Ok(()))) => {}
         Ok(other) => {
             // a refusal is admissible only for the documented SX1261 +15 dBm below 400 MHz rule
-            let lp = chip == "sx1261" || chip == "stm32wl-lp";
+            let lp = chip == "sx1261" || chip == "stm32wl-lp" || chip == "board-lp14";
             if !(lp && request >= 15 && hz < 400_000_000) {
                 v.push((format!("C17|power|{chip}|refused"), format!("request {request} dBm at {hz} Hz: {:?}", other.map(|x| x.err()))));
             }
@@ -208,8 +259,15 @@ pub fn eval_power_via(chip: &str, request: i32, hz: u32, via: u8, env: &Env) -> 
         }
     }
     if is126(chip) {
-        let hp = chip == "sx1262" || chip == "stm32wl-hp";
-        let (lo, hi) = if hp { (-9, 22) } else { (-17, 15) };
+        let hp = chip == "sx1262" || chip == "stm32wl-hp" || chip.starts_with("board-hp");
+        // (a board with its own PA table: the top row of the table is the ceiling)
+        let (lo, hi) = match chip {
+            "board-hp20" => (-9, 20),
+            "board-hp17" => (-9, 17),
+            "board-lp14" => (-17, 14),
+            _ if hp => (-9, 22),
+            _ => (-17, 15),
+        };
         let Some(pa) = log.iter().rev().find(|t| t.w.first() == Some(&0x95) && t.w.len() == 5) else {
             return vec![(format!("C17|power|{chip}|pa-config-not-programmed"), format!("{request}"))];
         };
@@ -790,7 +848,7 @@ pub fn run(tier: Tier, replay: Option<&str>) {
         });
     }
     // (b) power
-    let chips = ["sx1261", "sx1262", "stm32wl-lp", "stm32wl-hp", "sx1276-rfo", "sx1276-boost", "sx1272-rfo", "sx1272-boost"];
+    let chips = ["sx1261", "sx1262", "stm32wl-lp", "stm32wl-hp", "sx1276-rfo", "sx1276-boost", "sx1272-rfo", "sx1272-boost", "board-hp20", "board-hp17", "board-lp14"];
     for chip in chips {
         let env = passive(|w, n| if w.first() == Some(&0x1D) { vec![0xC8; n] } else { vec![0; n] });
         let mut reqs: Vec<i32> = (-128..=127).collect();
@@ -994,7 +1052,7 @@ pub fn run(tier: Tier, replay: Option<&str>) {
     let coverage = json!({
         "evaluations": ctx.evals(),
         "distinct_nontrivial": nontrivial.load(Ordering::Relaxed),
-        "rule": "(a) set_channel on SX126x and SX127x for every 100 Hz of the LoRaWAN bands plus a 1 kHz stride over 137-1020 MHz (thorough: every 1 Hz of 137-1020 MHz), PLL word decoded with the datasheet formula; every sequence of four front-end calls over {prepare_for_tx / prepare_for_rx / rx_switch_channel / listen on two frequencies, start_rx, sleep warm / cold, init, tx} on one driver instance (SX1262, SX1276 chip models): after every call that names a frequency the chip is tuned to it; (b) set_tx_power_and_ramp_time for every request -128..127 and i32 extremes x {SX1261, SX1262, STM32WL LP/HP, SX1276 RFO/BOOST, SX1272 RFO/BOOST} x 3 bands, PA registers decoded with the datasheet tables, and (SX126x) requests -20..30 also through LoRa::prepare_for_tx and LoRa::continuous_wave; pairs of requests in a row on one register-file chip model (14 first x 36 second values per chip), the second one decoded; a request during which one environment call (SPI transfer / BUSY wait / RF switch, every position) fails, retried on the same driver instance: the chip then holds what a fresh driver programs; every sequence of two to four front-end calls over {prepare_for_tx at 10 / 14 / 20 dBm, continuous_wave at 14 / 20 dBm, sleep cold / warm, init, enter_standby, tx} ending in a prepare_for_tx, on one driver instance and chip model of all eight variants: the PA registers then hold what a fresh driver programs for that request; (c) every symbol timeout 0..65535 through do_rx, decoded mantissa/exponent (SX126x) or 10-bit value (SX127x); (d) every (SF,BW) x margin 0..1000 ms through LorawanRadio::setup_rx + rx_single; (e) every raw SX126x (RssiPkt, SnrPkt[, SignalRssi]) value and every SX127x (SNR, RSSI, band, chip) register value through get_rx_packet_status, and the SX127x conversion over carrier frequencies on both sides of every band edge and of the 525 MHz LF/HF line. Every tuple is a distinct input",
+        "rule": "(a) set_channel on SX126x and SX127x for every 100 Hz of the LoRaWAN bands plus a 1 kHz stride over 137-1020 MHz (thorough: every 1 Hz of 137-1020 MHz), PLL word decoded with the datasheet formula; every sequence of four front-end calls over {prepare_for_tx / prepare_for_rx / rx_switch_channel / listen on two frequencies, start_rx, sleep warm / cold, init, tx} on one driver instance (SX1262, SX1276 chip models): after every call that names a frequency the chip is tuned to it; (b) set_tx_power_and_ramp_time for every request -128..127 and i32 extremes x {SX1261, SX1262, STM32WL LP/HP, SX1276 RFO/BOOST, SX1272 RFO/BOOST, and three SX126x boards that supply their own PA table through Sx126xVariant::pa_table with a top row of +20 / +17 dBm (high-power PA) and +14 dBm (low-power PA): the top row is the ceiling} x 3 bands, PA registers decoded with the datasheet tables, and (SX126x) requests -20..30 also through LoRa::prepare_for_tx and LoRa::continuous_wave; pairs of requests in a row on one register-file chip model (14 first x 36 second values per chip), the second one decoded; a request during which one environment call (SPI transfer / BUSY wait / RF switch, every position) fails, retried on the same driver instance: the chip then holds what a fresh driver programs; every sequence of two to four front-end calls over {prepare_for_tx at 10 / 14 / 20 dBm, continuous_wave at 14 / 20 dBm, sleep cold / warm, init, enter_standby, tx} ending in a prepare_for_tx, on one driver instance and chip model of all eight variants: the PA registers then hold what a fresh driver programs for that request; (c) every symbol timeout 0..65535 through do_rx, decoded mantissa/exponent (SX126x) or 10-bit value (SX127x); (d) every (SF,BW) x margin 0..1000 ms through LorawanRadio::setup_rx + rx_single; (e) every raw SX126x (RssiPkt, SnrPkt[, SignalRssi]) value and every SX127x (SNR, RSSI, band, chip) register value through get_rx_packet_status, and the SX127x conversion over carrier frequencies on both sides of every band edge and of the 525 MHz LF/HF line. Every tuple is a distinct input",
         "samples": [
             serde_json::to_value(Case::Freq { chip: "sx1262".into(), hz: 868_100_000 }).unwrap(),
             serde_json::to_value(Case::Power { chip: "sx1276-boost".into(), request: 20, hz: 868_100_000, via: 0 }).unwrap(),
